@@ -1,0 +1,101 @@
+//go:build verif
+// +build verif
+
+package bmt
+
+import (
+	"sync"
+	"sync/atomic"
+)
+
+// Verification hooks (build tag `verif` only; see /verif/DESIGN.md section 4).
+// A gate is called by the goroutines of the concurrent hasher right before each of
+// their linearisation points; the conformance driver may block there to force a
+// schedule, or just record the order.  Without a registered function a gate is a
+// no-op.
+
+// gate kinds
+const (
+	verifGateSection     = 0 // processSection starts (before the section is hashed); node = leaf of the section, flag = final
+	verifGateToggle      = 1 // writeNode is about to call n.toggle(); flag = coming from the left child
+	verifGateFinalToggle = 2 // writeFinalNode is about to call n.toggle(); flag = coming from the left child
+	verifGateSend        = 3 // about to send the root on the result channel
+
+	VerifGateSection     = verifGateSection
+	VerifGateToggle      = verifGateToggle
+	VerifGateFinalToggle = verifGateFinalToggle
+	VerifGateSend        = verifGateSend
+)
+
+// VerifGateEvent describes the point a goroutine has reached.
+type VerifGateEvent struct {
+	Hasher *Hasher
+	Kind   int
+	Level  int  // 0 = section (leaf) level, 1 = their parents, ...; -1 for VerifGateSend
+	Index  int  // position of the node on its level; the section number for VerifGateSection
+	Flag   bool // final (section gate) / coming from the left child (toggle gates)
+}
+
+var verifGateFn atomic.Value // of func(VerifGateEvent)
+
+// VerifSetGate registers (or, with nil, removes) the gate function.
+func VerifSetGate(f func(VerifGateEvent)) {
+	if f == nil {
+		f = func(VerifGateEvent) {}
+	}
+	verifGateFn.Store(f)
+}
+
+type verifPos struct{ level, index int }
+
+var verifPositions sync.Map // *tree -> map[*node]verifPos
+
+func verifLocate(t *tree, n *node) verifPos {
+	if m, ok := verifPositions.Load(t); ok {
+		return m.(map[*node]verifPos)[n]
+	}
+	m := map[*node]verifPos{}
+	for i, leaf := range t.leaves {
+		level, index := 0, i
+		for x := leaf; x != nil; x = x.parent {
+			m[x] = verifPos{level, index}
+			level++
+			index /= 2
+		}
+	}
+	verifPositions.Store(t, m)
+	return m[n]
+}
+
+func verifGate(h *Hasher, n *node, kind int, flag bool) {
+	f, _ := verifGateFn.Load().(func(VerifGateEvent))
+	if f == nil {
+		return
+	}
+	ev := VerifGateEvent{Hasher: h, Kind: kind, Level: -1, Flag: flag}
+	if n != nil {
+		p := verifLocate(h.bmt, n)
+		ev.Level, ev.Index = p.level, p.index
+	}
+	f(ev)
+}
+
+// VerifToggleCount is the number of toggle() calls node (level, index) of the hasher's tree has seen.
+func VerifToggleCount(h *Hasher, level, index int) int32 {
+	for i, leaf := range h.bmt.leaves {
+		if i>>uint(level) != index {
+			continue
+		}
+		x := leaf
+		for l := 0; l < level && x != nil; l++ {
+			x = x.parent
+		}
+		if x != nil {
+			return atomic.LoadInt32(&x.state)
+		}
+	}
+	return -1
+}
+
+// VerifSections is the number of sections (leaf nodes) of the hasher's tree.
+func VerifSections(h *Hasher) int { return len(h.bmt.leaves) }
